@@ -94,7 +94,7 @@ pub fn tmpl(mut t: T) -> Template {
                 // equal values: concurrent equal register writes, re-writing the held LWW value, equal GList elements
                 bounce_every: t.bounce_every && rng.chance(1, 5),
                 redundancy_every: t.redundancy_every && rng.chance(1, 6),
-                dup_values: (t.dups || t.family.contains("mvreg") || t.family == "lww") && rng.chance(1, 2),
+                dup_values: (t.dups || t.family.contains("mvreg") || t.family == "lww" || t.family == "merkle") && rng.chance(1, 2),
             }
         }),
     }
